@@ -24,7 +24,9 @@ def clean_constraints(cycles, shipped):
         cs += [z3.UGE(MVer(c.served['ts'], IDV(0)), 1), z3.ULT(MVer(c.served['ts'], IDV(0)), 2 ** 62), z3.UGE(MVer(c.served['sn'], IDV(1)), 1), z3.ULT(MVer(c.served['sn'], IDV(1)), 2 ** 62)]
         cs += [c.env['root']['shipped_parses']] + list(c.env['root']['hop_parses']) + [c.env['root']['max_updates'] == 1024]
         # a file is either unavailable at fetch time or delivered completely in one good chunk
-        for ch in c.chunks: cs += [ch[0], z3.Not(ch[1])]
+        for ch in c.chunks: cs += [ch[0], z3.Not(ch[1]), z3.UGE(ch[2], 1), z3.ULE(ch[2], 100000)]
+        # the replay uses the library's default limits; the files it builds are a few KB
+        for lim in c.limits: cs.append(lim == 1024 * 1024)
     # documents with the same id are the same document: ids of different roles must differ (RoleOf is a function, so this is implied)
     return cs
 
